@@ -85,6 +85,9 @@ def objects(platform):
                                                                                                                  cisco_acl.Ace("permit 6 any any", platform=platform, protocol_nr=True)])),
         ("Acl(entry objects with other switches)", lambda: cisco_acl.Acl(name="A1", platform=platform, items=[cisco_acl.Ace("permit tcp any any eq 80", platform=platform, port_nr=True),
                                                                                                              cisco_acl.Ace("permit 6 any any", platform=platform, protocol_nr=True)])),
+        # a versioned container that is handed an entry object whose address group already has members
+        ("Acl(versioned, entry object with group members)", lambda: cisco_acl.Acl(name="A1", platform=platform, version="15.2(02)SY" if platform == "ios" else "9.3",
+                                                                               items=[sc.make_ace(f"permit ip {g} G1 any", platform)])),
         # a remark whose text was assigned (not parsed from a line) and holds a run of blanks
         ("Remark-with-assigned-text(runs of blanks)", lambda: [r_ := cisco_acl.Remark("10 remark x", platform=platform), setattr(r_, "text", "two  blanks   here"), r_][-1]),
         ("Ace(in a group of a versioned ACL)", lambda: cisco_acl.Acl("\n".join([head, "remark = H1", "permit tcp any any eq 135", "permit tcp any any eq 514"]),
